@@ -133,6 +133,13 @@ def summarize(prop, tier, seed, hs, by_h, engine_b=None, wall_s=0.0, extra_assum
                               json.dumps(f["inputs"])[:400]))
         for r in rs:
             for b in r.get("validated_bad", []):
+                if b.get("verdict") == "ignored":
+                    # the concrete run left the harness's input domain (an assumption failed) although the symbolic
+                    # run with the same values stayed inside: the code under test broke a tie differently (set /
+                    # dict order over objects hashed by address, e.g. equally distant leaf pairs in midpoint
+                    # rooting).  Nothing failed; the path is simply not counted as validated.
+                    hev["replays_diverged_into_ignored"] = hev.get("replays_diverged_into_ignored", 0) + 1
+                    continue
                 n_nonrepro += 1
                 lines.append("HARNESS-ERROR property=%s harness=%s passing path does not replay: %s"
                              % (prop, h.id, json.dumps(b)[:500]))
